@@ -12,9 +12,12 @@
 
     2. MIX-INS.  A render class statement may list ordinary (non-render) classes among its
        bases: [class Q(Mixin, B)], [class P(B, Mixin)].  The render classes still form the
-       forest of [RArgs.v] (one render base per class); class [c] lists [m_before c] mix-ins
-       before its render base and [m_after c] after it (each a fresh plain subclass of
-       [object]).  [mro] is [c.__mro__] without [object] (C3 on these statements; validated
+       forest of [RArgs.v] (one DIRECT render base [par c] per class); class [c] lists
+       [m_before c] mix-ins before its render base, [m_after c] after everything else and,
+       when [m_mid c > 0], [m_mid c] mix-ins BETWEEN its render base and a second, redundant
+       render base [m_g c] (a proper ancestor of [par c]: [class Q(B, Mixin, A)]), which
+       C3 places right before [m_g c] in the MRO.  Every mix-in is a fresh plain subclass of
+       [object].  [mro] is [c.__mro__] without [object] (C3 on these statements; validated
        against the real [__mro__] by the correspondence).  [RenderableMeta.__new__]
        (_renderable.py:81-87) walks the MRO and SKIPS ([continue]) what is not a render class;
        the excluded design STOPS ([break]) at the first one.
@@ -59,17 +62,26 @@ Inductive mitem :=
 | MR (c : nat)          (* render class c *)
 | MX (c j : nat).       (* the j-th mix-in listed by the statement of class c *)
 
-Record mixes := { m_before : nat -> nat; m_after : nat -> nat }.
+Record mixes := { m_before : nat -> nat; m_after : nat -> nat; m_mid : nat -> nat; m_g : nat -> nat }.
 
 Definition mix_items (c lo n : nat) : list mitem := map (MX c) (seq lo n).
 
-(** [c.__mro__] without [object]: [class c(before..., par c, after...)] *)
+(** [mid] placed right before render class [g] *)
+Fixpoint ins_before (g : nat) (mid l : list mitem) : list mitem :=
+  match l with
+  | [] => []
+  | MR c :: r => if Nat.eqb c g then mid ++ MR c :: r else MR c :: ins_before g mid r
+  | x :: r => x :: ins_before g mid r
+  end.
+
+(** [c.__mro__] without [object]: [class c(before..., par c, [mid..., m_g c,] after...)] *)
 Fixpoint mro_f (p : nat -> nat) (mx : mixes) (fuel c : nat) : list mitem :=
   MR c :: mix_items c 0 (m_before mx c)
-       ++ match fuel with
-          | 0 => []
-          | S f => if Nat.eqb c 0 then [] else mro_f p mx f (p c)
-          end
+       ++ ins_before (m_g mx c) (mix_items c (m_before mx c + m_after mx c) (m_mid mx c))
+                     match fuel with
+                     | 0 => []
+                     | S f => if Nat.eqb c 0 then [] else mro_f p mx f (p c)
+                     end
        ++ mix_items c (m_before mx c) (m_after mx c).
 Definition mro (F : forest) (mx : mixes) (c : nat) : list mitem := mro_f (par F) mx c c.
 
@@ -95,6 +107,8 @@ Definition held (pol : walk_policy) (F : forest) (mx : mixes) (c : nat) : list n
     namespace class — no mention of mix-ins or of the MRO *)
 Definition in_hierarchy (F : forest) (c a : nat) : bool := ns_compatible F c (a, []).
 
-Definition no_mixes : mixes := {| m_before := fun _ => 0; m_after := fun _ => 0 |}.
-Definition mk_mixes (b a : list nat) : mixes :=
-  {| m_before := fun c => nth c b 0; m_after := fun c => nth c a 0 |}.
+Definition no_mixes : mixes :=
+  {| m_before := fun _ => 0; m_after := fun _ => 0; m_mid := fun _ => 0; m_g := fun _ => 0 |}.
+Definition mk_mixes (b a m g : list nat) : mixes :=
+  {| m_before := fun c => nth c b 0; m_after := fun c => nth c a 0;
+     m_mid := fun c => nth c m 0; m_g := fun c => nth c g 0 |}.
